@@ -12,6 +12,9 @@ structure BufInv (c : Cfg) (b : Buf) : Prop where
   fetched_le : b.fetched ≤ c.src.length
   pend : b.pendErr = true → b.fetched = c.src.length
   rderr : b.rdErr = true → b.fetched = c.src.length
+  /-- the theorems are about an ordinary finite source; sources that go on after an end of file
+      (`Reader.marks`) are covered by the correspondence stream and the segment specification -/
+  nomarks : c.rd.marks = []
 
 theorem avail_length (src : List Nat) (b : Buf) (h : b.fetched ≤ src.length) :
     (avail src b).length = b.fetched - b.cur := by
@@ -34,34 +37,53 @@ theorem avail_eq_drop (src : List Nat) (b : Buf) (h : b.fetched = src.length) :
 /-! ### fill -/
 
 theorem fill_cur (src : List Nat) (rd : Reader) (b : Buf) : (fill src rd b).cur = b.cur := by
-  unfold fill; split <;> rfl
+  unfold fill fillPlain fillSeg
+  split
+  · split <;> rfl
+  · simp only; split <;> rfl
+
+theorem fill_of_nomarks (src : List Nat) (rd : Reader) (b : Buf) (h : rd.marks = []) :
+    fill src rd b = fillPlain src rd b := by
+  unfold fill; rw [if_pos h]
 
 theorem fill_inv {c : Cfg} {b : Buf} (h : BufInv c b) : BufInv c (fill c.src c.rd b) := by
-  unfold fill
+  rw [fill_of_nomarks _ _ _ h.nomarks]
+  unfold fillPlain
   split
   · rename_i hlt
-    refine ⟨?_, ?_, ?_, ?_⟩
+    refine ⟨?_, ?_, ?_, ?_, h.nomarks⟩
     · simp only; have := h.cur_le; omega
     · simp only; omega
     · simp only [Bool.and_eq_true, decide_eq_true_eq]; intro hh; exact hh.2
     · simp only [Bool.and_eq_true, decide_eq_true_eq]; intro hh; exact hh.2
   · rename_i hge
     have := h.fetched_le
-    refine ⟨h.cur_le, h.fetched_le, ?_, ?_⟩ <;> (intro _; simp only; omega)
+    refine ⟨h.cur_le, h.fetched_le, ?_, ?_, h.nomarks⟩ <;> (intro _; simp only; omega)
 
 /-- a fill makes progress: more bytes, or the end of the source is known -/
 theorem fill_progress (src : List Nat) (rd : Reader) (b : Buf) :
     b.fetched < (fill src rd b).fetched ∨ (fill src rd b).pendErr = true := by
-  unfold fill
+  unfold fill fillPlain fillSeg
   split
-  · left; simp only; omega
-  · right; rfl
+  · split
+    · left; simp only; omega
+    · right; rfl
+  · simp only
+    split
+    · left; simp only; omega
+    · right; rfl
 
 theorem fill_fetched_mono (src : List Nat) (rd : Reader) (b : Buf) :
     b.fetched ≤ (fill src rd b).fetched := by
-  unfold fill; split
-  · simp only; omega
-  · exact Nat.le_refl _
+  unfold fill fillPlain fillSeg
+  split
+  · split
+    · simp only; omega
+    · exact Nat.le_refl _
+  · simp only
+    split
+    · simp only; omega
+    · exact Nat.le_refl _
 
 /-! ### the fill loop of ReadRune -/
 
@@ -196,7 +218,7 @@ theorem bufReadRune_spec {c : Cfg} {b : Buf} (h : BufInv c b) :
       simp only [hb1]
       rw [if_neg hne]
     rw [hval]
-    refine ⟨⟨?_, hinv.fetched_le, hinv.pend, hinv.rderr⟩, ?_, ?_⟩
+    refine ⟨⟨?_, hinv.fetched_le, hinv.pend, hinv.rderr, hinv.nomarks⟩, ?_, ?_⟩
     · show b1.cur + (decodeRune (avail c.src b1)).2 ≤ b1.fetched
       have := hinv.cur_le; omega
     · intro _
@@ -222,7 +244,7 @@ theorem bufReadRune_spec {c : Cfg} {b : Buf} (h : BufInv c b) :
       simp only [hb1]
       rw [if_pos heq, if_pos hp]
     rw [hval]
-    refine ⟨⟨hinv.cur_le, hinv.fetched_le, ?_, hinv.rderr⟩, ?_, ?_⟩
+    refine ⟨⟨hinv.cur_le, hinv.fetched_le, ?_, hinv.rderr, hinv.nomarks⟩, ?_, ?_⟩
     · intro hh; exact absurd hh (by simp)
     · intro hh; exact absurd hh hlt
     · intro _; exact ⟨rfl, hcur, hf1, rfl⟩
@@ -276,7 +298,7 @@ theorem bufReadByte_spec {c : Cfg} {b : Buf} (h : BufInv c b) :
       simp only [hb1]
       rw [if_neg hne, hcur, hx]
     rw [hval]
-    refine ⟨⟨?_, hinv.fetched_le, hinv.pend, hinv.rderr⟩, ?_, ?_⟩
+    refine ⟨⟨?_, hinv.fetched_le, hinv.pend, hinv.rderr, hinv.nomarks⟩, ?_, ?_⟩
     · show b1.cur + 1 ≤ b1.fetched
       have := hinv.cur_le; omega
     · intro y hy
@@ -297,7 +319,7 @@ theorem bufReadByte_spec {c : Cfg} {b : Buf} (h : BufInv c b) :
       simp only [hb1]
       rw [if_pos heq, if_pos hp]
     rw [hval]
-    refine ⟨⟨hinv.cur_le, hinv.fetched_le, ?_, hinv.rderr⟩, ?_, ?_⟩
+    refine ⟨⟨hinv.cur_le, hinv.fetched_le, ?_, hinv.rderr, hinv.nomarks⟩, ?_, ?_⟩
     · intro hh; exact absurd hh (by simp)
     · intro y hy; rw [hnone] at hy; exact absurd hy (by simp)
     · intro _; exact ⟨rfl, hcur, hf1, rfl⟩
